@@ -1,4 +1,4 @@
-"""T7: regenerate coq/gen/CacheProtocol.v from the TEXT of mypy/build.py and mypy/build_worker/worker.py.
+"""T7: regenerate coq/gen/CacheProtocol.v from the TEXT of mypy/build.py, mypy/build_worker/worker.py, mypy/metastore.py.
 
 Extracted (python `ast` only, mypy is never imported; fail-closed: anything not recognised raises):
 
@@ -153,6 +153,93 @@ def remove_reaction(ops: list[tuple[str, ast.Call, list[ast.AST]]]) -> bool:
                 if not (returns_none or reraises):
                     return False
     return True
+
+
+def _methods(tree: ast.Module, cls: str) -> dict[str, ast.FunctionDef]:
+    for n in tree.body:
+        if isinstance(n, ast.ClassDef) and n.name == cls:
+            return {m.name: m for m in n.body if isinstance(m, ast.FunctionDef)}
+    raise Unsupported(f"class {cls} not found in mypy/metastore.py")
+
+
+def _lowlevel_calls(node: ast.AST, names: tuple[str, ...]) -> list[ast.Call]:
+    return [c for c in _calls_in_order(node) if ast.unparse(c.func) in names]
+
+
+def store_error_handling(mtree: ast.Module) -> dict[str, bool]:
+    """The `except` structure of the store methods (fail closed on anything else):
+
+    write:  the low-level operation (os.replace / db.execute) sits in a try whose only handler catches
+            OSError / sqlite3.OperationalError and returns False; the method returns True otherwise.
+    remove: the low-level operation (os.remove / db.execute) is NOT inside a try that swallows its error:
+            a failing remove raises into build.write_cache.  Returns {"remove_raises": bool}."""
+    res = {"remove_raises": True}
+    for cls, low_w, low_r, exc in (("FilesystemMetadataStore", ("os.replace",), ("os.remove", "os.unlink"), "OSError"),
+                                   ("SqliteMetadataStore", ("db.execute",), ("db.execute",), "sqlite3.OperationalError")):
+        ms = _methods(mtree, cls)
+        for need in ("write", "remove", "commit"):
+            if need not in ms:
+                raise Unsupported(f"{cls}.{need} not found")
+        w = ms["write"]
+        tries = [t for t in ast.walk(w) if isinstance(t, ast.Try)]
+        if len(tries) != 1:
+            raise Unsupported(f"{cls}.write: expected exactly one try block, found {len(tries)}")
+        t = tries[0]
+        if not any(_lowlevel_calls(b, low_w) for b in t.body):
+            raise Unsupported(f"{cls}.write: {low_w} is not inside the try block")
+        if len(_lowlevel_calls(w, low_w)) != sum(len(_lowlevel_calls(b, low_w)) for b in t.body):
+            raise Unsupported(f"{cls}.write: {low_w} outside the try block")
+        if len(t.handlers) != 1 or t.handlers[0].type is None or ast.unparse(t.handlers[0].type) != exc:
+            raise Unsupported(f"{cls}.write: handlers are not exactly `except {exc}`")
+        hb = t.handlers[0].body
+        if not (len(hb) == 1 and isinstance(hb[0], ast.Return) and isinstance(hb[0].value, ast.Constant) and hb[0].value.value is False):
+            raise Unsupported(f"{cls}.write: the handler does not `return False`")
+        if t.orelse or t.finalbody:
+            raise Unsupported(f"{cls}.write: try has else/finally")
+        last = w.body[-1]
+        if not (isinstance(last, ast.Return) and isinstance(last.value, ast.Constant) and last.value.value is True):
+            raise Unsupported(f"{cls}.write: does not end with `return True`")
+        r = ms["remove"]
+        if not _lowlevel_calls(r, low_r):
+            raise Unsupported(f"{cls}.remove: low-level removal {low_r} not found")
+        for t in [t for t in ast.walk(r) if isinstance(t, ast.Try)]:
+            if any(_lowlevel_calls(b, low_r) for b in t.body):
+                for h in t.handlers:
+                    if not isinstance(h.body[-1], ast.Raise):
+                        res["remove_raises"] = False     # the store swallows a failing removal
+    return res
+
+
+def snapshot_order(tree: ast.Module, funcs: dict[str, ast.FunctionDef]) -> list[str]:
+    """Where build.dispatch writes the build-level record that vouches for ALL module entries
+    (@plugins_snapshot.json) relative to process_graph (which rewrites the entries)."""
+    fn = _need(funcs, "dispatch")
+    ev: list[str] = []
+    for c in _calls_in_order(fn):
+        f = c.func
+        if isinstance(f, ast.Name) and f.id == "process_graph":
+            ev.append("SnGraph")
+        elif isinstance(f, ast.Name) and f.id == "write_plugins_snapshot":
+            ev.append("SnWrite")
+        elif isinstance(f, ast.Name) and f.id == "invalidate_plugins_snapshot":
+            ev.append("SnInval")
+        elif isinstance(f, ast.Attribute) and _is_metastore(f.value) and f.attr in ("write", "remove"):
+            raise Unsupported(f"line {c.lineno}: direct metastore.{f.attr} in dispatch")
+    if ev.count("SnGraph") != 1:
+        raise Unsupported(f"dispatch: expected one call of process_graph, found {ev}")
+    # no other writer of the snapshot
+    writers = [c for c in ast.walk(tree) if isinstance(c, ast.Call) and isinstance(c.func, ast.Name)
+               and c.func.id in ("write_plugins_snapshot", "invalidate_plugins_snapshot")]
+    if len(writers) != len([e for e in ev if e != "SnGraph"]):
+        raise Unsupported("the plugins snapshot is written outside build.dispatch")
+    w = _need(funcs, "write_plugins_snapshot")
+    calls = [c for c in _calls_in_order(w) if isinstance(c.func, ast.Attribute) and _is_metastore(c.func.value)]
+    if len(calls) != 1 or calls[0].func.attr != "write" or ast.unparse(calls[0].args[0]) != "PLUGIN_SNAPSHOT_FILE":
+        raise Unsupported("write_plugins_snapshot: expected exactly one metastore.write(PLUGIN_SNAPSHOT_FILE, ...)")
+    if not any(isinstance(c.func, ast.Attribute) and c.func.attr == "error" and any(k.arg == "blocker" for k in c.keywords)
+               for c in _calls_in_order(w)):
+        raise Unsupported("write_plugins_snapshot: a failed write is no longer a blocking error")
+    return ev
 
 
 def coord_commit(funcs: dict[str, ast.FunctionDef]) -> bool:
@@ -333,6 +420,7 @@ def coq_bool(b: bool) -> str:
 def extract() -> dict[str, object]:
     tree = ast.parse(vlib.read_repo("mypy/build.py"))
     wtree = ast.parse(vlib.read_repo("mypy/build_worker/worker.py"))
+    store = store_error_handling(ast.parse(vlib.read_repo("mypy/metastore.py")))
     funcs = _funcs(tree)
     wc, drops = write_cache_ops(funcs)
     single_write(funcs, "write_cache_meta", "PMeta")
@@ -342,9 +430,10 @@ def extract() -> dict[str, object]:
     impl, _ = loop_templates(_need(funcs, "process_stale_scc_implementation"), wc)
     ic, mc = worker_commits(wtree)
     return {"write_cache": wc, "seq": seq, "iface": iface, "impl": impl,
-            "data_fail_drops": drops and sk1 and sk2, "rm_fail_drops": _RM_DROPS and sk1 and sk2,
+            "data_fail_drops": drops and sk1 and sk2, "rm_fail_drops": _RM_DROPS and sk1 and sk2 and store["remove_raises"],
+            "store_remove_raises": store["remove_raises"],
             "coord_commit": coord_commit(funcs), "worker_iface_commit": ic, "worker_impl_commit": mc,
-            "final_commit": final_commit(funcs)}
+            "final_commit": final_commit(funcs), "snapshot_order": snapshot_order(tree, funcs)}
 
 
 def render(p: dict[str, object]) -> str:
@@ -354,6 +443,9 @@ From Coq Require Import List Bool.
 From C04 Require Import Model.
 Import ListNotations.
 
+(* mypy/metastore.py: write = low-level op in try / except -> return False (both stores, checked);
+   remove lets a low-level failure raise: {coq_bool(p['store_remove_raises'])} (if false a failing removal is silently
+   ignored, so p_rm_fail_drops is false whatever build.write_cache does) *)
 (* store operations inside build.write_cache, in source order *)
 Definition write_cache_ops : list pstep := {coq_list(p['write_cache'])}.
 
@@ -367,6 +459,9 @@ Definition current_protocol : protocol :=
      p_worker_iface_commit := {coq_bool(p['worker_iface_commit'])};
      p_worker_impl_commit := {coq_bool(p['worker_impl_commit'])};
      p_final_commit := {coq_bool(p['final_commit'])} |}}.
+
+(* build.dispatch: invalidation / rewriting of the entries (process_graph) / writing of @plugins_snapshot.json *)
+Definition current_snapshot_order : list snapstep := {coq_list(p['snapshot_order'])}.
 """
 
 
